@@ -193,7 +193,7 @@ impl Machine {
                 let reg = if side == 4 { d % NU } else { a % NU };
                 let kv = scalar_ref(t, k);
                 let rv = RefInt::new(false, denote_u(&self.u[reg]));
-                let (lhs, rhs) = if side == 2 || side == 3 { (kv, rv) } else { (rv, kv) };
+                let (lhs, rhs) = if matches!(side, 2 | 3 | 6 | 8) { (kv, rv) } else { (rv, kv) };
                 match o {
                     "sub" => {
                         if lhs.cmp(&rhs) == Ordering::Less {
@@ -250,7 +250,7 @@ impl Machine {
             "u.pow" | "i.pow" => {
                 let kv = scalar_ref(t.min(5), k);
                 // form 3 is the inherent pow(u32)
-                let e = if s.int("f") >= 3 { (k as u32) as u128 } else { kv.mag.to_u128().unwrap_or(u128::MAX) };
+                let e = if s.int("f") == 3 { (k as u32) as u128 } else { kv.mag.to_u128().unwrap_or(u128::MAX) };
                 let bits = if op == "u.pow" { denote_u(&self.u[a % NU]).bits() } else { denote_i(&self.i[a % NI]).mag.bits() };
                 if bits > 1 && (e > 4096 || bits as u128 * e > (CAP_WORDS as u128) * 32) {
                     return Expect::Skip;
@@ -321,7 +321,7 @@ impl Machine {
             }
             "u.int" | "i.int" => {
                 let z = if op == "u.int" { zu(b % NU) } else { zi(b % NI) };
-                let zero_ok = matches!(o, "gcd" | "lcm" | "gcd_lcm" | "is_multiple_of" | "parity" | "extended_gcd" | "extended_gcd_lcm" | "abs_sub");
+                let zero_ok = matches!(o, "gcd" | "lcm" | "gcd_lcm" | "is_multiple_of" | "divides" | "parity" | "extended_gcd" | "extended_gcd_lcm" | "abs_sub");
                 if o == "lcm" || o == "gcd_lcm" || o == "extended_gcd_lcm" {
                     let w = if op == "u.int" {
                         words(&self.u[a % NU]) + words(&self.u[b % NU])
@@ -394,7 +394,7 @@ impl Machine {
                 let reg = if side == 4 { d % NI } else { a % NI };
                 let kv = scalar_ref(t, k);
                 let rz = zi(reg);
-                let rhs_zero = if side == 2 || side == 3 { rz } else { kv.is_zero() };
+                let rhs_zero = if matches!(side, 2 | 3 | 6 | 8) { rz } else { kv.is_zero() };
                 if div_like(o) && rhs_zero {
                     return Expect::Panic("div-by-zero");
                 }
@@ -494,7 +494,13 @@ impl Machine {
                     let r = s.int("r") as u32;
                     let txt = s.str("s");
                     let x = match f {
-                        0 => BigUint::from_str_radix(txt, r).ok(),
+                        0 => match BigUint::from_str_radix(txt, r) {
+                            Ok(v) => Some(v),
+                            Err(e) => {
+                                dg.str(&format!("{} / {:?}", e, e));
+                                None
+                            }
+                        },
                         1 => BigUint::parse_bytes(txt.as_bytes(), r),
                         _ => txt.parse::<BigUint>().ok(),
                     };
@@ -543,7 +549,20 @@ impl Machine {
                         0 => self.i[src].to_biguint(),
                         1 => Some(self.i[src].magnitude().clone()),
                         2 => Some(self.i[src].clone().into_parts().1),
-                        _ => BigUint::try_from(self.i[src].clone()).ok(),
+                        3 => BigUint::try_from(self.i[src].clone()).ok(),
+                        4 => num_bigint::ToBigUint::to_biguint(&self.i[src]),
+                        5 => BigUint::try_from(&self.i[src]).ok(),
+                        6 => num_bigint::ToBigUint::to_biguint(&self.u[src % NU]),
+                        _ => match BigUint::try_from(self.i[src].clone()) {
+                            Ok(v) => Some(v),
+                            Err(e) => {
+                                // the error hands the original value back and prints something
+                                dg.str(&format!("{}", e));
+                                let back = e.into_original();
+                                dg.u64(hash_of(&back));
+                                None
+                            }
+                        },
                     };
                     match x {
                         Some(x) => self.put_u(d, x, obs),
@@ -620,6 +639,10 @@ impl Machine {
                                     1 => { let v = self.take_u(a, mv, obs); let r = v $opx x; self.put_u(d, r, obs) }
                                     2 => { let r = x $opx &self.u[a]; self.put_u(d, r, obs) }
                                     3 => { let v = self.take_u(a, mv, obs); let r = x $opx v; self.put_u(d, r, obs) }
+                                    5 => { let r = &self.u[a] $opx &x; self.put_u(d, r, obs) }
+                                    6 => { let r = &x $opx &self.u[a]; self.put_u(d, r, obs) }
+                                    7 => { let v = self.take_u(a, mv, obs); let r = v $opx &x; self.put_u(d, r, obs) }
+                                    8 => { let v = self.take_u(a, mv, obs); let r = &x $opx v; self.put_u(d, r, obs) }
                                     _ => { obs.wrote_u |= 1 << d; self.u[d] $asg x; }
                                 }
                             }};
@@ -650,6 +673,7 @@ impl Machine {
                             1 => { let v = self.take_u(a, mv, obs); let r = if left { v << x } else { v >> x }; self.put_u(d, r, obs) }
                             2 => { obs.wrote_u |= 1 << d; if left { self.u[d] <<= x } else { self.u[d] >>= x } }
                             3 => { let r = if left { &self.u[a] << &x } else { &self.u[a] >> &x }; self.put_u(d, r, obs) }
+                            5 => { let v = self.take_u(a, mv, obs); let r = if left { v << &x } else { v >> &x }; self.put_u(d, r, obs) }
                             _ => { obs.wrote_u |= 1 << d; if left { self.u[d] <<= &x } else { self.u[d] >>= &x } }
                         }
                     });
@@ -698,6 +722,7 @@ impl Machine {
                         0 => with_uty!(t, k, x => Pow::pow(&self.u[a], x)),
                         1 => { let v = self.take_u(a, mv, obs); with_uty!(t, k, x => Pow::pow(v, x)) }
                         2 => with_uty!(t, k, x => Pow::pow(&self.u[a], &x)),
+                        4 => { let v = self.take_u(a, mv, obs); with_uty!(t, k, x => Pow::pow(v, &x)) }
                         _ => BigUint::pow(&self.u[a], k as u32),
                     };
                     self.put_u(d, r, obs);
@@ -752,6 +777,8 @@ impl Machine {
                         "lcm" => Some(x.lcm(y)),
                         "gcd_lcm" => { let (g, l) = x.gcd_lcm(y); second = Some(l); Some(g) }
                         "is_multiple_of" => { dg.u64(x.is_multiple_of(y) as u64); None }
+                        #[allow(deprecated)]
+                        "divides" => { dg.u64(x.divides(y) as u64); None }
                         _ => { dg.u64(x.is_even() as u64 + 2 * x.is_odd() as u64); None }
                     };
                     if let Some(r) = r {
@@ -908,6 +935,8 @@ impl Machine {
                         7 => (x == &self.u[b]) as u64,
                         8 => hash_of(x),
                         9 => (x.max(&self.u[b]) == x) as u64 + 2 * ((x.min(&self.u[b])) == x) as u64,
+                        11 => { let tz = x.trailing_zeros().unwrap_or(0); x.bit(tz) as u64 + 2 * x.bit(tz + 1) as u64 + 4 * x.bit(tz.saturating_sub(1)) as u64 }
+                        12 => x.bit(x.bits()) as u64 + 2 * x.bit(x.bits().saturating_sub(1)) as u64 + 4 * x.bit(u64::MAX) as u64,
                         _ => x.is_even() as u64,
                     };
                     dg.u64(v);
@@ -1081,6 +1110,10 @@ impl Machine {
                                     1 => { let v = self.take_i(a, mv, obs); let r = v $opx x; self.put_i(d, r, obs) }
                                     2 => { let r = x $opx &self.i[a]; self.put_i(d, r, obs) }
                                     3 => { let v = self.take_i(a, mv, obs); let r = x $opx v; self.put_i(d, r, obs) }
+                                    5 => { let r = &self.i[a] $opx &x; self.put_i(d, r, obs) }
+                                    6 => { let r = &x $opx &self.i[a]; self.put_i(d, r, obs) }
+                                    7 => { let v = self.take_i(a, mv, obs); let r = v $opx &x; self.put_i(d, r, obs) }
+                                    8 => { let v = self.take_i(a, mv, obs); let r = &x $opx v; self.put_i(d, r, obs) }
                                     _ => { obs.wrote_i |= 1 << d; self.i[d] $asg x; }
                                 }
                             }};
@@ -1102,6 +1135,7 @@ impl Machine {
                             1 => { let v = self.take_i(a, mv, obs); let r = if left { v << x } else { v >> x }; self.put_i(d, r, obs) }
                             2 => { obs.wrote_i |= 1 << d; if left { self.i[d] <<= x } else { self.i[d] >>= x } }
                             3 => { let r = if left { &self.i[a] << &x } else { &self.i[a] >> &x }; self.put_i(d, r, obs) }
+                            5 => { let v = self.take_i(a, mv, obs); let r = if left { v << &x } else { v >> &x }; self.put_i(d, r, obs) }
                             _ => { obs.wrote_i |= 1 << d; if left { self.i[d] <<= &x } else { self.i[d] >>= &x } }
                         }
                     });
@@ -1162,6 +1196,7 @@ impl Machine {
                         0 => with_uty!(t.min(5), k, x => Pow::pow(&self.i[a], x)),
                         1 => { let v = self.take_i(a, mv, obs); with_uty!(t.min(5), k, x => Pow::pow(v, x)) }
                         2 => with_uty!(t.min(5), k, x => Pow::pow(&self.i[a], &x)),
+                        4 => { let v = self.take_i(a, mv, obs); with_uty!(t.min(5), k, x => Pow::pow(v, &x)) }
                         _ => BigInt::pow(&self.i[a], k as u32),
                     };
                     self.put_i(d, r, obs);
@@ -1214,6 +1249,8 @@ impl Machine {
                         "extended_gcd_lcm" => { let (e, l) = x.extended_gcd_lcm(y); second = Some(e.x); third = Some(l); Some(e.gcd) }
                         "abs_sub" => Some(x.abs_sub(y)),
                         "is_multiple_of" => { dg.u64(x.is_multiple_of(y) as u64); None }
+                        #[allow(deprecated)]
+                        "divides" => { dg.u64(x.divides(y) as u64); None }
                         _ => { dg.u64(x.is_even() as u64 + 2 * x.is_odd() as u64 + 4 * x.is_positive() as u64 + 8 * x.is_negative() as u64); None }
                     };
                     if let Some(r) = r {
@@ -1386,6 +1423,8 @@ impl Machine {
                         7 => (x == &self.i[b]) as u64,
                         8 => hash_of(x),
                         9 => (x.max(&self.i[b]) == x) as u64 + 2 * ((x.min(&self.i[b])) == x) as u64,
+                        11 => { let tz = x.trailing_zeros().unwrap_or(0); x.bit(tz) as u64 + 2 * x.bit(tz + 1) as u64 + 4 * x.bit(tz.saturating_sub(1)) as u64 }
+                        12 => x.bit(x.bits()) as u64 + 2 * x.bit(x.bits().saturating_sub(1)) as u64 + 4 * x.bit(u64::MAX) as u64,
                         _ => x.is_even() as u64,
                     };
                     dg.u64(v);
